@@ -82,6 +82,24 @@ def make_cases(ctx):
         for ver in ((3, 3), (3, 1)):
             yield "foreign12-%04x-%d" % (foreign, ver[1]), dict(
                 foreign=[None, None, foreign], ver=ver)
+    # a session negotiated at one version offered again to a server (same
+    # cache / ticket key) that now speaks a lower version at most: whatever
+    # the answer, the suite named in it must be defined for the version
+    for sid in suites.NEGOTIABLE:
+        su = suites.TABLE[sid]
+        if su.tls13 or not su.defined_for((3, 3)):
+            continue
+        only12 = not su.defined_for((3, 2))
+        lows = [(3, 2), (3, 1), (3, 0)] if only12 else [(3, 1)]
+        if ctx.quick:
+            lows = [lows[sid % len(lows)]] if not only12 else \
+                [(3, 2), [(3, 1), (3, 0)][sid % 2]]
+        for low in lows:
+            for mech in ("id", "ticket"):
+                if mech == "ticket" and low == (3, 0):
+                    continue
+                yield "resver-%04x-%d-%s" % (sid, low[1], mech), dict(
+                    resver=[sid, list(low), mech])
     yield "names-table", dict(table=True)
 
 
@@ -314,7 +332,95 @@ def run_foreign(ctx, cid, P):
                                      outcome(tc)))
 
 
+def run_resver(ctx, cid, P):
+    from vt.pair import Flavor, settings
+    from tlslite.sessioncache import SessionCache
+    sid, low, mech = P["resver"]
+    low = tuple(low)
+    su = suites.TABLE[sid]
+    cache = SessionCache() if mech == "id" else None
+    skw = {} if mech == "id" else dict(ticketKeys=[bytes(range(32))])
+    try:
+        fl = suites.flavor_for(sid, (3, 3), sset_kw=skw,
+                               session_cache=cache)
+    except Exception:   # noqa
+        ctx.count("config_rejected")
+        return
+    if fl.kind not in ("cert", "anon"):
+        return
+    # the client keeps one configuration for both connections: the suite of
+    # the first one plus what a full handshake at the lower version needs
+    ckw = dict(minVersion=(3, 0), maxVersion=(3, 3),
+               cipherNames=[su.cipher] + [c for c in ("aes128", "3des")
+                                          if c != su.cipher],
+               macNames=[su.mac] + (["sha"] if su.mac != "sha" else []),
+               keyExchangeNames=[su.kx_setting])
+    fl.cset = settings(**ckw)
+    p = Pair()
+    tc, ts = p.handshake(fl)
+    if tc.status != "done" or ts.status != "done" or \
+            p.c.session.cipherSuite != sid:
+        ctx.count("resver_first_failed")
+        return
+    if mech == "ticket":
+        t = drive.Task("d", drive.aread(p.c, None, 0), p.csock)
+        if p.link.in_flight("s2c"):
+            drive.run([t], p.link)
+    sess = p.c.session
+    for conn, sock in ((p.c, p.csock), (p.s, p.ssock)):
+        drive.run([drive.Task("c", drive.aclose(conn), sock)], p.link)
+    if mech == "ticket" and not sess.tls_1_0_tickets:
+        ctx.count("resver_no_ticket")
+        return
+    skw2 = dict(skw, minVersion=(3, 0), maxVersion=low)
+    fl2 = Flavor(fl.kind, skey=fl.skey, cset=settings(**ckw),
+                 sset=settings(**skw2), session=sess, session_cache=cache)
+    p2 = Pair()
+    tc, ts = p2.handshake(fl2)
+    ctx.ev()
+    ctx.count("resver_attempts")
+    sh = [b for t, b in wire.plain_handshake(p2.link.records, "s2c")
+          if t == 2]
+    W = {"case": cid, "suite": su.name, "first": "TLS1.2",
+         "second_max": pair.VNAME[low], "mech": mech,
+         "outcome": [outcome(tc), outcome(ts)]}
+    if not sh:
+        ctx.count("resver_no_server_hello")
+        ctx.cell("resver", "%s|%s|no_hello" % (mech, pair.VNAME[low]))
+        return
+    b = sh[0]
+    hver = (b[0], b[1])
+    sl = b[34]
+    hsid = wire.u16(b, 35 + sl)
+    hsu = suites.TABLE.get(hsid)
+    resumed = bool(sl) and bytes(b[35:35 + sl]) == bytes(sess.sessionID) \
+        if mech == "id" else bool(p2.s.resumed)
+    W["server_hello"] = [pair.VNAME.get(hver, str(hver)),
+                         hsu.name if hsu else hex(hsid), resumed]
+    ctx.cell("resver", "%s|%s|%s" % (mech, pair.VNAME[low],
+                                     "resumed" if resumed else "full"))
+    key = {"suite": hsu.name if hsu else hex(hsid),
+           "ver": pair.VNAME.get(hver, str(hver))}
+    if hver > low:
+        ctx.violation(dict(key, clause="version_above_server_max"), W, "")
+    if hsu is None or not hsu.defined_for(hver):
+        ctx.violation(dict(key, clause="suite_in_undefined_version",
+                           via="resumption"), W,
+                      "ServerHello names %s for %s (session of a TLS 1.2 "
+                      "connection offered to a server limited to %s)" % (
+                          key["suite"], key["ver"], pair.VNAME[low]))
+    elif tc.status == "done" and ts.status == "done":
+        ctx.count("resver_completed")
+        for conn in (p2.c, p2.s):
+            if tuple(conn.version) != hver or \
+                    conn.session.cipherSuite != hsid:
+                ctx.violation(dict(key, clause="ends_disagree",
+                                   via="resumption"), W, "")
+
+
 def run_case(ctx, cid, P):
+    if P.get("resver"):
+        return run_resver(ctx, cid, P)
     if P.get("foreign"):
         return run_foreign(ctx, cid, P)
     if P.get("table"):
@@ -657,6 +763,8 @@ def finalize(m, tier):
         out.append("fewer than 150 (suite, version) cells judged")
     if c.get("records_decrypted", 0) < 500:
         out.append("fewer than 500 records independently decrypted")
+    if c.get("resver_attempts", 0) < 100:
+        out.append("fewer than 100 sessions offered at a lower version")
     if c.get("names_cross_checked", 0) < 40:
         out.append("IANA name table not cross-checked against OpenSSL")
     return out
